@@ -149,8 +149,8 @@ class Graph(object):
         if isinstance(other, Graph):
             new = set(other.triples) - set(self.triples)
             self.triples.extend(t for t in other.triples if t in new)
-            for t in new:
-                if t in other.epidata:
+            for t in other.triples:
+                if t in new and t in other.epidata:
                     self.epidata[t] = list(other.epidata[t])
             self.epidata.update(other.epidata)
             return self
